@@ -73,6 +73,8 @@ struct Recorder<S> {
     calls: u64,
     log: Log<S>,
     registry: Arc<Mutex<Vec<(u64, Log<S>)>>>,
+    /// Some(k): the k-th call from now panics instead of answering (a user's conditional may fail)
+    panic_after: Option<usize>,
 }
 impl<S> Clone for Recorder<S> {
     fn clone(&self) -> Self {
@@ -85,11 +87,19 @@ impl<S> Clone for Recorder<S> {
             calls: 0,
             log,
             registry: self.registry.clone(),
+            panic_after: None,
         }
     }
 }
 impl<S: El> Conditional<S> for Recorder<S> {
     fn sample(&mut self, index: usize, given: &[S]) -> S {
+        if let Some(k) = self.panic_after {
+            if k == 0 {
+                self.panic_after = None;
+                panic!("conditional failed on purpose");
+            }
+            self.panic_after = Some(k - 1);
+        }
         self.calls += 1;
         let mut h = mix(self.calls, index as u64 ^ (self.id << 40));
         for g in given {
@@ -120,12 +130,21 @@ pub struct Case {
     /// which chain to step at each point of the history
     pub schedule: Vec<u8>,
     pub via_sampler: bool,
+    /// history points (bit 7 of the schedule byte) at which the public `current_state` field is
+    /// overwritten first: 1 = same length, 2 = another length; the new vector has spare capacity
+    #[serde(default)]
+    pub reassign: u8,
+    /// history points (bit 6 of the schedule byte) at which the conditional panics in mid-sweep
+    #[serde(default)]
+    pub failing_conditional: bool,
 }
 
 fn strategy() -> BoxedStrategy<Case> {
     let dim = prop_oneof![1 => Just(1usize), 5 => 2usize..6, 3 => 6usize..20, 1 => 20usize..=64];
-    bx((0u8..4, dim, 1usize..=8, any::<u64>(), proptest::collection::vec(any::<u8>(), 1..10), any::<bool>(), proptest::bool::weighted(0.2), proptest::bool::weighted(0.3), proptest::option::weighted(0.3, 0usize..9)).prop_map(
-        |(st, dim, chains, init_seed, schedule, via_sampler, ragged, neg_zero, reseed_at)| Case {
+    bx((0u8..4, dim, 1usize..=8, any::<u64>(), proptest::collection::vec(any::<u8>(), 1..10), any::<bool>(), proptest::bool::weighted(0.2), proptest::bool::weighted(0.3), (proptest::option::weighted(0.3, 0usize..9), prop_oneof![3 => Just(0u8), 1 => Just(1u8), 1 => Just(2u8)], proptest::bool::weighted(0.2))).prop_map(
+        |(st, dim, chains, init_seed, schedule, via_sampler, ragged, neg_zero, (reseed_at, reassign, failing_conditional))| Case {
+            reassign,
+            failing_conditional,
             ragged,
             neg_zero,
             reseed_at,
@@ -150,8 +169,9 @@ fn generic<S: El>(c: &Case, cov: &mut Cov) -> CheckResult {
         calls: 0,
         log: Arc::new(Mutex::new(vec![])),
         registry: registry.clone(),
+        panic_after: None,
     };
-    let dims: Vec<usize> = (0..c.chains).map(|ch| if c.ragged { 1 + (c.dim + ch * 3) % 9 } else { c.dim }).collect();
+    let mut dims: Vec<usize> = (0..c.chains).map(|ch| if c.ragged { 1 + (c.dim + ch * 3) % 9 } else { c.dim }).collect();
     let inits: Vec<Vec<S>> = (0..c.chains)
         .map(|ch| {
             (0..dims[ch])
@@ -214,8 +234,49 @@ fn generic<S: El>(c: &Case, cov: &mut Cov) -> CheckResult {
             seeds = chains!().iter().map(|ch| ch.seed).collect();
             cov.class("re-seeded-mid-history");
         }
-        let ch = *pick as usize % c.chains;
+        let ch = (*pick & 0x3f) as usize % c.chains;
+        if c.reassign > 0 && *pick & 0x80 != 0 {
+            // `current_state` is a public field: the next sweep covers whatever vector is there
+            let h0 = mix(c.init_seed ^ 0xA55, t as u64);
+            let nd = if c.reassign == 2 { 1 + (h0 % 9) as usize } else { dims[ch] };
+            let mut v: Vec<S> = Vec::with_capacity(nd + 1 + (h0 >> 8) as usize % 7);
+            v.extend((0..nd).map(|i| S::of(mix(h0, i as u64))));
+            chains!()[ch].current_state = v.clone();
+            model[ch] = v;
+            dims[ch] = nd;
+            cov.class("current_state-reassigned(spare-capacity)");
+        }
         let d = dims[ch];
+        if c.failing_conditional && *pick & 0x40 != 0 {
+            // the conditional fails at its k-th call of this sweep: the chain must keep a state of
+            // the same length in which every coordinate holds either its old value or the answer
+            // the conditional gave for it in this sweep
+            let k = (mix(c.init_seed ^ 0xFA11, t as u64) % d as u64) as usize;
+            chains!()[ch].target.panic_after = Some(k);
+            let log_before = chains!()[ch].target.log.lock().unwrap().len();
+            let r = no_panic(|| {
+                chains!()[ch].step();
+            });
+            chains!()[ch].target.panic_after = None;
+            ensure!(r.is_err(), "harness", "the failing conditional did not fail");
+            let log = chains!()[ch].target.log.lock().unwrap().clone();
+            let calls = &log[log_before..];
+            let now = chains!()[ch].current_state.clone();
+            ensure!(
+                now.len() == d,
+                "gibbs-state-lost-after-conditional-panic",
+                "step {t}: after the conditional panicked at its call {k} of the sweep the chain's state has length {} instead of {d}",
+                now.len()
+            );
+            for i in 0..d {
+                let answered = calls.iter().find(|(idx, _, _)| *idx == i).map(|(_, _, v)| *v);
+                let ok = now[i].key() == model[ch][i].key() || answered.map(|v| v.key() == now[i].key()).unwrap_or(false);
+                ensure!(ok, "gibbs-state-lost-after-conditional-panic", "step {t}: after a failed sweep coordinate {i} is {:?}: neither its old value {:?} nor an answer of the conditional", now[i], model[ch][i]);
+            }
+            model[ch] = now;
+            cov.class("conditional-panicked-mid-sweep");
+            continue;
+        }
         let before_all: Vec<Vec<S>> = chains!().iter().map(|x| x.current_state.clone()).collect();
         let log_before = chains!()[ch].target.log.lock().unwrap().len();
         let ret: Vec<S> = no_panic(|| chains!()[ch].step().clone()).map_err(|m| Fail::new("gibbs-panic", format!("step panicked: {m}")))?;
